@@ -274,7 +274,7 @@ def verify_unit(unit_name, repo=None, use_cache=True, keep=True, canary=True):
         # canary run
         if canary and out is not None:
             ug.generate(canary=True)
-            cpath2 = os.path.join(GEN_DIR, unit_name + '.canary.rs')
+            cpath2 = os.path.join(GEN_DIR, unit_name + '_canary.rs')
             open(cpath2, 'w').write(ug.text())
             rc2, out2, diags2, stderr2, dt2, cmd2 = run_verus(cpath2)
             f2, hard2 = classify(diags2, ug, canary=True)
